@@ -208,8 +208,10 @@ func compareVersionPrerelease(a, b string) int {
 		return -1
 	}
 
-	x := a
-	y := b
+	// versionNextIdent walks "-ident.ident" as golang.org/x/mod/semver does; the
+	// prerelease kept by Version has no leading "-".
+	x := "-" + a
+	y := "-" + b
 
 	for x != "" && y != "" {
 		x, y = x[1:], y[1:] // skip - or .
@@ -231,14 +233,10 @@ func compareVersionPrerelease(a, b string) int {
 			}
 
 			return 1
-		case ix:
-			if len(dx) < len(dy) {
-				return -1
-			}
-
-			if len(dx) > len(dy) {
-				return 1
-			}
+		case ix && len(dx) < len(dy):
+			return -1
+		case ix && len(dx) > len(dy):
+			return 1
 		case dx < dy:
 			return -1
 		default:
